@@ -30,8 +30,10 @@ ASSUMPTIONS = [
     "uniqueness of the Lyapunov solution (stable Ta_stable) is a premise of the scaling theorem (no spectral theory "
     "in MathComp 1.15); covariance is defined algebraically (loadings on uncorrelated primitive shocks), not "
     "measure-theoretically",
-    "generated models are linear, 1-4 core variables with lags <= 3 and occasional leads, optional unit-root block "
-    "(random walks, I(2), differences, cointegrated pairs), 0-3 measurement equations, 1-2 parameter variants",
+    "generated models have linear equations (declared linear, or non-linear with some variables in logs), 1-4 core "
+    "variables with lags <= 3 and occasional leads, optional unit-root block (random walks, I(2), differences, "
+    "cointegrated pairs), 0-3 measurement equations, 1-2 parameter variants; models whose solve() itself refuses "
+    "(double unit roots split by rounding) or whose solution is not the unique stable one are rejected (C01)",
 ]
 MANIFEST = {
     "technique": "Coq/MathComp proof over any real closed field of a model of fords/covariances.py written once over an "
@@ -152,23 +154,34 @@ def gen_model(rng) -> dict:
         if s in mshocks and rng.random() < 0.1:
             vals = [0.0] * nvar
         stds["std_" + s] = vals
+    # a share of the stationary models is declared non-linear, with some variables in logs (same equations in
+    # log terms; steady state 0 / 1 assigned): covariances are then those of the logs, default std is 0.01
+    nonlinear = ("w1" not in tv) and rng.random() < 0.2
+    logvars = [x for x in xs if rng.random() < 0.5] if nonlinear else []
     unassigned = []
     if rng.random() < 0.15:
-        k = rng.choice(sorted(stds)); unassigned.append(k); stds[k] = [1.0] * nvar   # documented default, linear models
-    return {"nvar": nvar, "params": params, "stds": stds, "unassigned": unassigned, "tv": tv, "mv": mv,
+        k = rng.choice(sorted(stds)); unassigned.append(k)
+        stds[k] = [0.01 if nonlinear else 1.0] * nvar       # documented defaults
+    return {"nonlinear": nonlinear, "logvars": logvars, "nvar": nvar, "params": params, "stds": stds, "unassigned": unassigned, "tv": tv, "mv": mv,
             "shocks": shocks, "mshocks": mshocks, "kinds": kinds, "has_lead": has_lead, "teq": teq, "meq": meq}
 
 
-def _term(c, v, sh):
+def _term(c, v, sh, logs=()):
     cs = "" if c == 1.0 else ("-" if c == -1.0 else f"{c}*")
-    return f"{cs}{v}" + ("" if sh == 0 else "{%+d}" % sh)
+    x = f"{v}" + ("" if sh == 0 else "{%+d}" % sh)
+    return cs + (f"log({x})" if v in logs else x)
 
 
 def source_of(spec: dict) -> str:
+    logs = spec.get("logvars", [])
+
     def eq(e):
-        parts = [_term(c, v, sh) for c, v, sh in e["terms"]] + [_term(c, s, 0) for c, s in e["shocks"]]
-        return f"{e['lhs']} = " + " + ".join(parts).replace("+ -", "- ") + ";"
-    src = "!transition-variables\n    " + ", ".join(spec["tv"]) + "\n!transition-shocks\n    " + ", ".join(spec["shocks"]) + "\n"
+        parts = [_term(c, v, sh, logs) for c, v, sh in e["terms"]] + [_term(c, s, 0) for c, s in e["shocks"]]
+        return f"{_term(1.0, e['lhs'], 0, logs)} = " + " + ".join(parts).replace("+ -", "- ") + ";"
+    src = "!transition-variables\n    " + ", ".join(spec["tv"]) + "\n"
+    if logs:
+        src += "!log-variables\n    " + ", ".join(logs) + "\n"
+    src += "!transition-shocks\n    " + ", ".join(spec["shocks"]) + "\n"
     if spec["mv"]:
         src += "!measurement-variables\n    " + ", ".join(spec["mv"]) + "\n"
     if spec["mshocks"]:
@@ -184,7 +197,9 @@ def source_of(spec: dict) -> str:
 def build_model(spec: dict, variant: int | None = None, scale: float | None = None):
     """The solved irispie model of the spec (all variants, or one variant as a singleton model)."""
     import irispie as ir
-    m = ir.Simultaneous.from_string(source_of(spec), linear=True)
+    m = ir.Simultaneous.from_string(source_of(spec), linear=not spec.get("nonlinear", False))
+    if spec.get("nonlinear"):
+        m.assign(**{x: (1.0 if x in spec["logvars"] else 0.0) for x in spec["tv"] + spec["mv"]})
     nvar = spec["nvar"] if variant is None else 1
     if nvar > 1:
         m.alter_num_variants(nvar)
@@ -352,7 +367,7 @@ def correspondence(ctx) -> CorrResult:
     per = ctx.scale(13, 16)
     res = CorrResult()
     dist = {"variants": {}, "order": {}, "unit_roots": {}, "alpha_size": {}, "measurement_vars": {}, "style": {},
-            "with_lead": 0, "rejected_at_solve": 0, "rejected_not_unique": 0, "nan_rows": 0, "solver_recorded": 0,
+            "with_lead": 0, "nonlinear_with_log_variables": 0, "rejected_at_solve": 0, "rejected_not_unique": 0, "nan_rows": 0, "solver_recorded": 0,
             "solver_recomputed_by_harness": 0}
     entries = []        # (coq text, meta)
     tries = 0
@@ -388,6 +403,7 @@ def correspondence(ctx) -> CorrResult:
         dist["order"][str(order)] = dist["order"].get(str(order), 0) + 1
         dist["style"][str(style)] = dist["style"].get(str(style), 0) + 1
         dist["with_lead"] += int(spec["has_lead"])
+        dist["nonlinear_with_log_variables"] += int(spec["nonlinear"])
         if len(res.samples) < 3:
             res.samples.append({"source": source_of(spec), "params": spec["params"], "stds": spec["stds"], "order": order,
                                 "names": out["names"], "acov0_variant0": np.round(out["variants"][0]["acov"][0], 6).tolist()})
@@ -507,7 +523,7 @@ def check_spec(spec: dict, order: int, info: dict) -> list[Failure]:
     fails: list[Failure] = []
     src = source_of(spec)
     inp = {"source": src, "params": spec["params"], "stds": spec["stds"], "order": order, "spec": spec}
-    repro = ("m = irispie.Simultaneous.from_string(source, linear=True); m.assign(**params, **stds); m.solve(); "
+    repro = (f"m = irispie.Simultaneous.from_string(source, linear={not spec.get('nonlinear', False)}); m.assign(**params, **stds); m.solve(); "
              f"m.get_acov(up_to_order={order})")
     try:
         m = build_model(spec)
@@ -521,7 +537,7 @@ def check_spec(spec: dict, order: int, info: dict) -> list[Failure]:
             return []
         return [Failure("acov:raises", f"get_acov/get_acorr raises {type(e).__name__}: {e}"[:200], inp, repr(e)[:200],
                         "autocovariance matrices", repro)]
-    want_names = spec["tv"] + spec["mv"]
+    want_names = [f"log({x})" if x in spec.get("logvars", []) else x for x in spec["tv"] + spec["mv"]]
     info["models"] = info.get("models", 0) + 1
     if names != want_names:
         fails.append(Failure("acov:names", "get_acov_dimension_names is not the current-dated transition and measurement "
@@ -552,8 +568,9 @@ def check_spec(spec: dict, order: int, info: dict) -> list[Failure]:
             how = "square solution"
         G, status = independent_acov(T, P, Z, H, su, sw, order, cur)
         info["value_checks"] = info.get("value_checks", 0) + 1
-        st = [i for i in range(nn) if status[i] == "stable" and spec["kinds"][names[i]] == "S"]
-        un = [i for i in range(nn) if status[i] == "unit" and spec["kinds"][names[i]] == "N"]
+        plain = spec["tv"] + spec["mv"]
+        st = [i for i in range(nn) if status[i] == "stable" and spec["kinds"][plain[i]] == "S"]
+        un = [i for i in range(nn) if status[i] == "unit" and spec["kinds"][plain[i]] == "N"]
         info["stable_vars"] = info.get("stable_vars", 0) + len(st)
         info["unit_root_vars"] = info.get("unit_root_vars", 0) + len(un)
         vin = dict(inp, variant=v, independent_from=how)
